@@ -38,12 +38,13 @@ type Config struct {
 }
 
 const (
-	pkgRepo    = "github.com/high-moctane/mocrelay"
-	pkgSQLite  = "github.com/high-moctane/mocrelay/handler/sqlite"
-	pkgProm    = "github.com/high-moctane/mocrelay/middleware/prometheus"
-	pkgHarness = "verifkit/harness"
-	vschedPath = "verifkit/vsched"
-	vsyncPath  = "verifkit/vsched/vsync"
+	pkgRepo     = "github.com/high-moctane/mocrelay"
+	pkgSQLite   = "github.com/high-moctane/mocrelay/handler/sqlite"
+	pkgProm     = "github.com/high-moctane/mocrelay/middleware/prometheus"
+	pkgHarness  = "verifkit/harness"
+	vschedPath  = "verifkit/vsched"
+	vsyncPath   = "verifkit/vsched/vsync"
+	vatomicPath = "verifkit/vsched/vatomic"
 )
 
 func verifRoot() string {
@@ -64,7 +65,7 @@ func DefaultConfig(out string) Config {
 			pkgHarness: {},
 		},
 		StmtPointFiles: []string{"event_cache.go", "data_structure.go"},
-		StmtPointFuncs: map[string][]string{"message.go": {"Serialize", "Verify", "unescapeNIP01"}},
+		StmtPointFuncs: map[string][]string{"message.go": {"Serialize", "Verify", "unescapeNIP01"}, "nip11.go": {"ServeHTTP"}},
 		Dir:            verifRoot(),
 		Tags:           "verif",
 	}
@@ -327,13 +328,20 @@ func (in *instr) rewrite() (bool, error) {
 			}
 		}
 	}
-	// imports: sync -> vsync
+	// imports: sync -> vsync, sync/atomic -> vatomic
 	for _, imp := range in.file.Imports {
 		p, _ := strconv.Unquote(imp.Path.Value)
 		if p == "sync" {
 			imp.Path.Value = strconv.Quote(vsyncPath)
 			if imp.Name == nil {
 				imp.Name = ast.NewIdent("sync")
+			}
+			in.changed = true
+		}
+		if p == "sync/atomic" {
+			imp.Path.Value = strconv.Quote(vatomicPath)
+			if imp.Name == nil {
+				imp.Name = ast.NewIdent("atomic")
 			}
 			in.changed = true
 		}
